@@ -29,7 +29,7 @@ def literal_args(rparts):
 
     for p in rparts:
         if isinstance(p, dict):
-            for k in ("key", "index", "value", "cond"):
+            for k in ("key", "index", "value", "cond", "lcond", "mcond"):
                 walk_tree(p.get(k))
     return out[:4]
 
@@ -65,6 +65,10 @@ def run(rep, tier, seed):
             part = {"rk": rng.choice(["map", "list", "mol"]), "key": None, "index": None, "cond": None, "label": None,
                     "value": (rng.choice(["xor", "xor", "and", "or"]), sub, sub)}
             rparts = [part] if rng.random() < 0.7 else [rng.choice([("prim", "a"), ("prim", 0)]), part]
+        if rng.random() < 0.06:
+            # a map-or-list part with list_condition / map_condition of its own (index / key leaves mixed with value leaves)
+            part = c10.mol_slots_part(rng)
+            rparts = [part] if rng.random() < 0.6 else [rng.choice([("prim", "a"), ("prim", 0)]), part]
         probes = [doc] + rtdrv.PROBES[:5]
         lits = literal_args(rparts)
         if lits:
